@@ -41,7 +41,14 @@ V, VL, KV, SL, H = sp.V, sp.VL, sp.KV, sp.SL, sp.H
 sv = sp.sv
 T, F = z3.BoolVal(True), z3.BoolVal(False)
 
-EXECUTOR = SerExecutor
+from contracts import c05reflect as rf
+
+
+class C05Executor(rf.ReflectMixin, SerExecutor):
+    """SerExecutor + the reflection rules of round 7 (dir / getattr over a repository module, the module-level registry)."""
+
+
+EXECUTOR = C05Executor
 EXECUTOR_KW = {}
 
 
@@ -115,6 +122,8 @@ def m_is_dataclass(ex, st, args, kwargs, node):
         return [(st, VBool(sp.norm(V.is_DC(v.t))))]
     if isinstance(v, PTok) and v.what == "cls":
         return [(st, VBool(True))]
+    if isinstance(v, PTok) and v.what == "modattr":
+        return [(st, VBool(rf.ISDC(v.b)))]
     return ex.havoc_call(st, "is_dataclass", args, node)
 
 
@@ -183,8 +192,28 @@ def m_get_type_hints(ex, st, args, kwargs, node):
     return ex.havoc_call(st, "typing.get_type_hints", args, node)
 
 
+def registry_state_names():
+    """Module-level names of serialization.py that start as an empty dict and are used by `_get_type_registry` (found by role)."""
+    try:
+        m = loader.module(SER_PY)
+        fn = m.functions.get("_get_type_registry")
+        used = {x.id for x in ast.walk(fn) if isinstance(x, ast.Name)} if fn is not None else set()
+        out = []
+        for nm_, e in m.assigns.items():
+            empty = (isinstance(e, ast.Dict) and not e.keys) or (isinstance(e, ast.Call) and isinstance(e.func, ast.Name) and e.func.id == "dict"
+                                                                    and not e.args and not e.keywords)
+            if empty and nm_ in used:
+                out.append(nm_)
+        return out
+    except Exception:  # noqa
+        return []
+
+
 def install_models(reg):
     install_cli_models(reg)
+    rf.install_argparse(reg)
+    for nm_ in registry_state_names():
+        reg.module_consts[(SER_PY, nm_)] = PTok("typereg")
     reg.ext_models["dataclasses.is_dataclass"] = m_is_dataclass
     reg.ext_models["dataclasses.fields"] = m_fields
     reg.ext_models["base64.b64encode"] = m_b64encode
@@ -498,11 +527,26 @@ def dd_nameset_comp(ex, st, cn, nm, cond, vt, has, val):
 
 def decoder_contracts():
     out = []
-    out.append(FnContract(
-        target=f"{SER_PY}::_get_type_registry", params=[], assumed=True,
+    site = lambda f: (lambda c: T if getattr(c, "at_call_site", False) else f(c))
+    c = FnContract(
+        target=f"{SER_PY}::_get_type_registry", params=[],
+        hyps=site(rf.entry_state),
+        ensures=[("result-is-exactly-the-dataclass-classes-of-data_types", site(rf.result_complete)),
+                 ("published-registry-is-complete", site(rf.published_complete))],
         result_maker=lambda ex, st, ctx: PTok("registry"),
-        note="reflective registry: name -> class for the dataclasses of data_types; its content is re-derived from the AST "
-             "and cross-checked against the real function natively (obligation registry#matches-reflective-registry)"))
+        note="VERIFIED (round 7; was assumed): for every name q, q is a key iff REG(q) := q in dir(data_types) and the attribute is a class and "
+             "a dataclass, and the value is the object bound to q; the module-level registry is left complete (module invariant: empty or "
+             "complete, so later calls return it as it is).  Call sites see the token `registry` (q in registry == REG(q), registry[q] = the "
+             "class bound to q), which this postcondition implies.  Still assumed: dir / getattr / isinstance(type) / is_dataclass as "
+             "predicates INDIR / ISCLS / ISDC on names (contracts/c05reflect.py); content cross-checked natively on every run")
+    c.dirnames_loop = LoopSpec(inv=rf.dirnames_inv, label="dir")
+    out.append(c)
+    out.append(FnContract(
+        target=f"{SER_PY}::_get_field_types", params=[("cls", p_hint())],
+        requires=lambda c: z3.And(H.is_HCls(pvt(c, "cls")), sp.REG(H.cname(pvt(c, "cls")))),
+        returns=lambda c: PTok("hints", cls_name(c.args["cls"])),
+        raises=[Raises("Exception", sub=True, label="typing.get_type_hints: unresolvable annotation")],
+        note="the resolved annotations of the class, nothing else (relative to the assumed typing.get_type_hints)"))
     out.append(FnContract(
         target=f"{SER_PY}::_unwrap_optional", params=[("tp", p_hint("optional-or-not"))],
         returns=lambda c: VTuple([PH(z3.If(H.is_HOpt(pvt(c, "tp")), H.oarg(pvt(c, "tp")), pvt(c, "tp"))), VBool(H.is_HOpt(pvt(c, "tp")))]),
@@ -612,8 +656,13 @@ def main_contract(res_spec, unit_spec):
     out = [FnContract(target="sharepoint2text/__init__.py::read_file", params=[("path", p_unk())], assumed=True,
                       result_maker=read_file_result, may_raise_any=True,
                       note="yields the extraction results (a finite sequence of encodable dataclass instances) or raises"),
-           FnContract(target=f"{CLI_PY}::_build_parser", params=[], assumed=True, result_maker=lambda ex, st, ctx: VExt("CliParser"),
-                      note="argparse parser with the flags --json, --json-unit, --binary"),
+           FnContract(target=f"{CLI_PY}::_build_parser", params=[], result_maker=lambda ex, st, ctx: VExt("CliParser"),
+                      ensures=[("json-json_unit-binary-are-store_true-switches",
+                                lambda c: T if getattr(c, "at_call_site", False) else rf.parser_flags(c, CLI_FLAGS))],
+                      note="VERIFIED (round 7; was assumed): every add_argument call of the real body is recorded; --json / --json-unit / "
+                           "--binary are declared once each as store_true switches stored under json / json_unit / binary (what main reads), "
+                           "which is what the call-site view (parser whose namespace has these three Booleans) needs.  argparse itself "
+                           "stays an assumed library (contracts/c05reflect.install_argparse)"),
            FnContract(target=f"{CLI_PY}::main", params=[("argv", p_unk())],
                       ensures=[("stdout-is-json-dumps-of-the-shaped-payload", stdout_is_shaped_json)],
                       raises=[Raises("Exception", sub=True), Raises("SystemExit")],
@@ -622,6 +671,7 @@ def main_contract(res_spec, unit_spec):
     return out
 
 
+CLI_FLAGS = {"--json": "json", "--json-unit": "json_unit", "--binary": "binary"}
 JSON_DUMPS_DEFAULTS = {"skipkeys": False, "ensure_ascii": True, "check_circular": True, "allow_nan": True, "cls": None, "indent": None,
                        "separators": None, "default": None, "sort_keys": False}
 
